@@ -107,8 +107,7 @@ pub fn strategy(thorough: bool) -> BoxedStrategy<C31Case> {
                 if let Some(l) = lifespan_ms {
                     b.extend([l.saturating_sub(1).max(1), l, l + 1]);
                 }
-                let w = if std::env::var("C31_NO_PAST").is_ok() { 0.0001 } else { 0.35 };
-                prop::option::weighted(w, prop::sample::select(b))
+                prop::option::weighted(0.35, prop::sample::select(b))
             };
             let op = prop_oneof![
                 8 => (0u8..2, back).prop_map(|(inst, back_ms)| Op::Write { inst, back_ms }),
@@ -122,9 +121,19 @@ pub fn strategy(thorough: bool) -> BoxedStrategy<C31Case> {
                 Just((ann_ms, w_deadline, r_deadline, lifespan_ms, depth, mbt_ms)),
                 prop::collection::vec(op, 1..=max_ops),
                 lease,
+                // 40 % of the cases use no source timestamps in the past at all, so that the other routes to an
+                // overdue event are explored without the (known) effect of old timestamps
+                prop::bool::weighted(0.6),
             )
         })
-        .prop_map(|((ann_ms, w_deadline, r_deadline, lifespan_ms, depth, mbt_ms), mut ops, lease)| {
+        .prop_map(|((ann_ms, w_deadline, r_deadline, lifespan_ms, depth, mbt_ms), mut ops, lease, allow_past)| {
+            if !allow_past {
+                for op in ops.iter_mut() {
+                    if let Op::Write { back_ms, .. } = op {
+                        *back_ms = None;
+                    }
+                }
+            }
             if lease {
                 let at = ops.len() / 2;
                 ops.insert(at, Op::Partition { connected: false });
@@ -155,6 +164,7 @@ pub struct Hist {
 
 async fn scenario(c: C31Case) -> Hist {
     let mut h = Hist::default();
+    crate::common::limit_steps();
     let cfg = DustDdsConfigurationBuilder::new()
         .participant_announcement_interval(core::time::Duration::from_millis(c.ann_ms as u64))
         .build()
@@ -364,6 +374,9 @@ fn oracle(c: &C31Case, h: &Hist, res: &mut CaseResult) {
     if h.writes.iter().any(|w| w.result == "timeout") {
         res.class("write_timeout");
     }
+    if !c.ops.iter().any(|o| matches!(o, Op::Write { back_ms: Some(_), .. })) {
+        res.class("no_past_timestamps");
+    }
     res.nontrivial = overdue || blocked;
     res.info = json!({
         "delays": h.delays.len(),
@@ -388,7 +401,7 @@ pub fn main(ctx: &Ctx) {
     campaign(
         ctx,
         Campaign {
-            total_cases: ctx.pick(1_200, 40_000),
+            total_cases: ctx.pick(1_000, 20_000),
             max_shrink_iters: 200,
             limits: Limits { cpu_s: 30, wall_s: 120, as_bytes: 4 << 30 },
             meta: Meta {
